@@ -2,6 +2,7 @@
 from . import lpcommon as lc
 
 ID = 'C02'
+ANCHOR_FILES = ['solver/lp_solver.py', 'solver/model.py', 'solver/solver.py']
 LEVEL = 'exploration'
 RULE = ('random small specs biased to shapes hostile to objective bounds (lecturers > students, one lecturer with long '
         'lists, big targets, lower quotas making ~30% infeasible) x option sets with 1-5 criteria in every order, '
